@@ -36,7 +36,9 @@ const probeText = "path=@(count(run.path)) visits=@node.visit_count nres=@(count
 	"child=@child cs=@child.status cr=@(json(child.results)) cf=@child.flow.name parent=@parent ps=@parent.status pr=@(json(parent.results)) " +
 	"name=@contact.name lang=@contact.language tz=@contact.timezone ng=@(count(contact.groups)) groups=@contact.groups fields=@fields urns=@urns " +
 	"input=@input resume=@resume.type trigger=@trigger.type status=@run.status now=@(format_datetime(now())) seen=@contact.last_seen_on ticket=@ticket " +
-	"r0=@results.r0.value r0in=@results.r0.input run=@run created=@run.created_on"
+	"r0=@results.r0.value r0in=@results.r0.input run=@run created=@run.created_on " +
+	"rtz=@(tz(results.r0.created_on)) r6=@(datetime_add(results.r0.created_on, 6, \"M\")) runtz=@(tz(run.created_on)) run6=@(datetime_add(run.created_on, 6, \"M\")) " +
+	"intz=@(tz(input.created_on)) seen6=@(datetime_add(contact.last_seen_on, 6, \"M\")) ctz=@(tz(contact.created_on)) steptz=@(tz(run.path[0].arrived_on))"
 
 func (g *richGen) probeBlock(nflows int) []map[string]any {
 	r := g.r
